@@ -4,6 +4,9 @@
 #include "common.h"
 #include "algops.h"
 #include "csops.h"
+#ifdef VERIF_WITH_BALANCE
+#include "balops.h"
+#endif
 #ifdef VERIF_WITH_GEO
 #include "geoops.h"
 #endif
@@ -282,6 +285,9 @@ static void doCall(State &s, Toks &t) {
                           : solver == 2 ? LinearSolverHouseholderQR : LinearSolverLLT;
     ForwardDynamicsLagrangian(m, s.q, s.qd, s.tau, qdd, ls, fe);
     o.vec(qdd);
+#ifdef VERIF_WITH_BALANCE
+  } else if (balCall(name, t, m, s.q, s.qd, o)) {
+#endif
   } else if (csCall(name, t, m, s.C, s.q, s.qd, s.qdd, s.tau, fe, o)) {
   } else {
     o.str("bad-call");
